@@ -421,8 +421,10 @@ class HttpCommunicationLayer(CommunicationLayer):
                     "sender-comp": msg.src_comp,
                     "dest-comp": msg.dest_comp,
                     "type": str(msg.msg_type),
+                    "Content-Type": "application/json",
                 },
-                json=msg_repr,
+                # not json=msg_repr: recent requests refuse inf / nan costs
+                data=json.dumps(msg_repr),
                 timeout=0.5,
             )
         except ConnectionError:
